@@ -26,7 +26,7 @@ structure NetArgs where
   /-- bzip2 oracle table: compressed ↦ decompressed (none = decoder error) -/
   bz : List (Bytes × Option Bytes)
 
-/-- trailing tokens: `<script> [f=0101] [bz=<in>:<out|!>]* [td=<r>,<w>,<c>]` -/
+/-- trailing tokens: `<script> [f=0101] [bz=<in>:<out|!>]* [td=<r>,<w>,<c>] [ip=4|6]` -/
 def parseNetArgs (toks : List String) : Option NetArgs :=
   match toks with
   | [] => none
@@ -48,6 +48,9 @@ def parseNetArgs (toks : List String) : Option NetArgs :=
           -- `td=<read>,<write>,<connect>`: the timeout durations the harness constructs its settings with; the model has
           -- no clock, accepted durations do not change what a query does
           else if t.startsWith "td=" then some a
+          -- `ip=6`: the harness addresses the query to an IPv6 address; the model's transport has ports only (the harness
+          -- flags any socket operation on another IP than the case's)
+          else if t == "ip=6" || t == "ip=4" then some a
           else none) init
 
 def showEv : Ev → String
